@@ -3,6 +3,8 @@ import LoraVerif.Model.Mac
 import LoraVerif.Lemmas.RtLemmas
 import LoraVerif.Lemmas.Bits
 import LoraVerif.Lemmas.ExceptLemmas
+import LoraVerif.Lemmas.FcntDown
+import LoraVerif.Lemmas.Ghost
 /-!
 # C05 — a downlink is accepted iff it is authentic and fresh (replay protection)
 
@@ -13,90 +15,15 @@ import LoraVerif.Lemmas.ExceptLemmas
   upon exactly when it fits the window's size limit and its MIC verifies for that `N`; then `N` is
   remembered; otherwise the downlink counter is unchanged and nothing is delivered.
 * `no_frame_accepted_twice`: an accepted counter can never be accepted again.
+* HISTORIES (`Model/History.lean`; reference tracker `Gh` of `Lemmas/Ghost.lean`, freshness rule of
+  `Spec/Freshness.lean`): `history_accept_iff` — along every `run`, at every event, a data frame
+  heard in RX1/RX2/RXC is acted upon (reported, delivered, remembered) iff the REFERENCE accepts it
+  under the last counter the reference accepted in this session; `history_fcnt_down_strict` — the
+  accepted counters of one session are strictly increasing; `history_no_replay`.
 -/
 open Gen.Session Rt Model
 
 namespace C05
-
-theorem wrap_u16_eq {x : Int} : wrap .u16 x = x % 65536 := by
-  simp [wrap, ITy.bits, ITy.signed]
-theorem wrap_u32_eq {x : Int} : wrap .u32 x = x % 4294967296 := by
-  simp [wrap, ITy.bits, ITy.signed]
-
-/-- the first downlink of a session is taken at face value -/
-theorem next_none (w : Int) : next_fcnt_down none w = some w := rfl
-
-/-- closed form of the counter reconstruction: the candidate in the epoch of `last`, or in the next
-epoch when the low half wrapped, kept iff it lies in the freshness window -/
-def specNext (last w : Int) : Option Int :=
-  let cand := if last % 65536 ≤ w then last - last % 65536 + w else (last - last % 65536 + 65536) % 4294967296 + w
-  if 0 < cand - last ∧ cand - last ≤ 16384 then some cand else none
-
-set_option linter.unusedSimpArgs false in
-/-- the GENERATED function equals the closed form.  This is the only lemma that looks at the shape of
-the generated code; the script normalises comparisons in either orientation and `match` /
-`Option.filter` / `Option.map` renderings of the final test, so that behaviour-preserving rewrites
-of the Rust function keep it going. -/
-theorem next_eq_spec (last w : Int) (hl0 : 0 ≤ last) (hl1 : last < 4294967296) (hw0 : 0 ≤ w) (hw1 : w < 65536) :
-    next_fcnt_down (some last) w = specNext last w := by
-  unfold next_fcnt_down specNext
-  simp only [andI_hi16 hl0 hl1, wrap_u16_eq, wrap_u32_eq, MAX_FCNT_GAP, ge_iff_le, gt_iff_lt]
-  by_cases hge : last % 65536 ≤ w
-  · simp only [hge, decide_true, if_true]
-    rw [orI_lo16 (by omega) (by omega) hw0 hw1]
-    by_cases hr : 0 ≤ last - last % 65536 + w - last ∧ last - last % 65536 + w - last ≤ 4294967295
-    · rw [ck_u32 hr.1 hr.2]
-      simp [Option.filter, Option.map]
-      try (split <;> simp_all <;> omega)
-    · rw [ck_u32_none (by omega)]
-      simp [Option.filter, Option.map]
-      try omega
-  · simp only [hge, decide_false, if_false, Bool.false_eq_true]
-    rw [orI_lo16 (by omega) (by omega) hw0 hw1]
-    by_cases hr : 0 ≤ (last - last % 65536 + 65536) % 4294967296 + w - last ∧ (last - last % 65536 + 65536) % 4294967296 + w - last ≤ 4294967295
-    · rw [ck_u32 hr.1 hr.2]
-      simp [Option.filter, Option.map]
-      try (split <;> simp_all <;> omega)
-    · rw [ck_u32_none (by omega)]
-      simp [Option.filter, Option.map]
-      try omega
-
-/-- **counter reconstruction.** For every `last < 2^32` and wire value `< 2^16`. -/
-theorem next_spec (last w N : Int) (hl0 : 0 ≤ last) (hl1 : last < 4294967296) (hw0 : 0 ≤ w) (hw1 : w < 65536) :
-    next_fcnt_down (some last) w = some N ↔
-      (N % 65536 = w ∧ last < N ∧ N ≤ last + 16384 ∧ N < 4294967296) := by
-  rw [next_eq_spec last w hl0 hl1 hw0 hw1]
-  unfold specNext
-  simp only []
-  by_cases hge : last % 65536 ≤ w
-  · simp only [hge, if_true]
-    split
-    · simp only [Option.some.injEq]; omega
-    · simp only [reduceCtorEq, false_iff]; omega
-  · simp only [hge, if_false]
-    split
-    · simp only [Option.some.injEq]; omega
-    · simp only [reduceCtorEq, false_iff]; omega
-
-/-- the reconstructed counter is unique: no other `N` satisfies the freshness window -/
-theorem next_unique (last w N N' : Int) (hl0 : 0 ≤ last) (hl1 : last < 4294967296) (hw0 : 0 ≤ w) (hw1 : w < 65536)
-    (h : next_fcnt_down (some last) w = some N)
-    (h' : N' % 65536 = w ∧ last < N' ∧ N' ≤ last + 16384 ∧ N' < 4294967296) : N' = N := by
-  have := (next_spec last w N hl0 hl1 hw0 hw1).mp h
-  omega
-
-/-- rejection is complete: no `N` in the window ⇒ `none` -/
-theorem next_none_iff (last w : Int) (hl0 : 0 ≤ last) (hl1 : last < 4294967296) (hw0 : 0 ≤ w) (hw1 : w < 65536) :
-    next_fcnt_down (some last) w = none ↔
-      ¬ ∃ N, N % 65536 = w ∧ last < N ∧ N ≤ last + 16384 ∧ N < 4294967296 := by
-  constructor
-  · intro h ⟨N, hN⟩
-    have := (next_spec last w N hl0 hl1 hw0 hw1).mpr hN
-    rw [h] at this; cases this
-  · intro h
-    cases hn : next_fcnt_down (some last) w with
-    | none => rfl
-    | some N => exact absurd ⟨N, (next_spec last w N hl0 hl1 hw0 hw1).mp hn⟩ h
 
 /-! ## the session -/
 
@@ -185,6 +112,404 @@ theorem no_frame_accepted_twice (s : Session) (d : RxData) (mp : Nat) (N M : Nat
   have := (next_spec (N : Int) (d.fcnt16 : Int) v (by omega) (by omega) (by omega) (by omega)).mp hv
   omega
 
+/-! ## histories
+
+The property quantifies over every history.  `Lemmas/Ghost.lean` runs a *reference session tracker*
+(`Gh`: is there a session, and what was the last downlink counter the reference accepted in it —
+computed from the events' decoded frames and `Spec/Freshness.lean` alone) beside the model.
+`OutOk gh ev out` says what the output of one event must be, given the tracker before it. -/
+
+/-- response of a Class A procedure that ended without an accepted downlink -/
+def timeoutResp (so : SendOut) : Response :=
+  if so.frame.fcnt = 0xFFFFFFFF then .sessionExpired else if so.frame.confirmed then .noAck else .rxComplete
+
+/-- **what every event of a history must output**, given the reference tracker `gh` before it:
+* an uplink of a joined device whose receive procedure ran to its end reports `DownlinkReceived N`
+  and delivers the payload EXACTLY when the reference accepts a frame in RX1, or — RX1 having yielded
+  nothing — in RX2, with `N` the unique fresh counter its MIC verifies under (the exhausted uplink
+  counter space is reported instead when the uplink carried counter 2^32−1); otherwise it reports the
+  time-out response and delivers nothing;
+* a Class C reception likewise (an oversized frame is `NoUpdate` there);
+* a device without a session refuses to send and ignores Class C receptions. -/
+def OutOk (gh : Gh) (ev : Ev) (out : Out) : Prop :=
+  match ev, gh with
+  | .uplink _ _ _ none rx1 rx2 mp1 mp2, some last =>
+    ∃ so resp dl, out = .up so (some resp) dl ∧
+      (match specCycle last rx1 rx2 mp1 mp2 with
+       | .accepted N d _ =>
+         (so.frame.fcnt ≠ 0xFFFFFFFF ∧ resp = .downlinkReceived N ∧ dl = deliver d)
+         ∨ (so.frame.fcnt = 0xFFFFFFFF ∧ resp = .sessionExpired ∧ dl = none)
+       | _ => resp = timeoutResp so ∧ dl = none)
+  | .uplink _ _ _ (some _) _ _ _ _, some _ =>
+    ∃ so resp, out = .up so resp none ∧ (resp = none ∨ resp = some .sessionExpired)
+  | .uplink _ _ _ _ _ _ _ _, none => out = .notJoined
+  | .rxc v _ mp, some last =>
+    ∃ rf o, out = .rxc rf (some o) ∧
+      (match specRxc last v mp with
+       | some (N, d) => o = { resp := .downlinkReceived N, downlink := deliver d } ∨ o = { resp := .sessionExpired, downlink := none }
+       | none => o = noUp)
+  | .rxc _ _ _, none => ∃ rf, out = .rxc rf none
+  | .joinOtaa _ _ _ _ _, _ => ∃ jo resp, out = .join jo resp
+  | _, _ => out = .done
+
+theorem step_outOk {σ} (g : Rng σ) (m m' : MacState) (rs rs' : σ) (ev : Ev) (out : Out) (gh : Gh)
+    (hr : GhRel m gh) (hv : evOk ev = true) (h : step g (m, rs) ev = .ok ((m', rs'), out)) : OutOk gh ev out := by
+  cases ev with
+  | joinAbp da nwk app =>
+    simp only [step, pure, Except.pure, Except.ok.injEq, Prod.mk.injEq] at h
+    cases gh <;> exact h.2.symm
+  | setDr dr =>
+    simp only [step, pure, Except.pure, Except.ok.injEq, Prod.mk.injEq] at h
+    cases gh <;> exact h.2.symm
+  | setAdr on =>
+    simp only [step, pure, Except.pure, Except.ok.injEq, Prod.mk.injEq] at h
+    cases gh <;> exact h.2.symm
+  | joinOtaa fault rx1 rx2 mp1 mp2 =>
+    obtain ⟨jo, m1, o, _, _, _, ht⟩ := step_joinOtaa_inv g m m' rs rs' fault rx1 rx2 mp1 mp2 out h
+    have : ∃ jo resp, out = .join jo resp := by
+      cases hj : joinRes fault rx1 rx2 with
+      | some j => simp only [hj] at ht; exact ⟨jo, _, ht.2⟩
+      | none => simp only [hj] at ht; exact ⟨jo, _, ht.2⟩
+    cases gh <;> exact this
+  | rxc v snr mp =>
+    simp only [evOk] at hv
+    cases gh with
+    | none =>
+      obtain ⟨_, _, rf, _, rfl⟩ := step_rxc_notJoined g m m' rs rs' hr v snr mp out h
+      exact ⟨rf, rfl⟩
+    | some last =>
+      obtain ⟨s, hst, rfl, hl⟩ := hr
+      obtain ⟨_, rf, _, ht⟩ := step_rxc_joined g m m' rs rs' s hst hl v snr mp hv out h
+      simp only [OutOk]
+      cases hs : specRxc s.fcntDown v mp with
+      | none =>
+        simp only [hs] at ht ⊢
+        exact ⟨rf, noUp, ht.2, rfl⟩
+      | some p =>
+        obtain ⟨N, d⟩ := p
+        simp only [hs] at ht ⊢
+        refine ⟨rf, _, ht.2, ?_⟩
+        rcases acceptOut_resp s d N { cfg := m.cfg, region := m.region, pending := s.pending } with ⟨e, _⟩ | ⟨e, _⟩
+        · exact Or.inl e
+        · exact Or.inr e
+  | uplink data fport conf fault rx1 rx2 mp1 mp2 =>
+    simp only [evOk, Bool.and_eq_true] at hv
+    cases gh with
+    | none =>
+      obtain ⟨_, _, rfl⟩ := step_uplink_notJoined g m m' rs rs' hr data fport conf fault rx1 rx2 mp1 mp2 out h
+      cases fault <;> rfl
+    | some last =>
+      obtain ⟨s, hst, rfl, hl⟩ := hr
+      obtain ⟨so, m1, _, hfr, hst1, _, ht⟩ :=
+        step_uplink_joined g m m' rs rs' s hst hl data fport conf fault rx1 rx2 mp1 mp2 hv.1 hv.2 out h
+      have hfc : so.frame.fcnt = s.fcntUp := by rw [hfr]; rfl
+      have hcf : so.frame.confirmed = conf := by rw [hfr]; rfl
+      unfold UplinkTail at ht
+      cases fault with
+      | some k =>
+        simp only at ht
+        obtain ⟨m2, _, _, rfl⟩ := ht
+        simp only [OutOk]
+        refine ⟨so, _, rfl, ?_⟩
+        by_cases hx : faultExpired m2 = true
+        · right; simp [hx]
+        · left; simp [hx]
+      | none =>
+        simp only at ht
+        simp only [OutOk]
+        cases hsc : specCycle s.fcntDown rx1 rx2 mp1 mp2 with
+        | accepted N d snr =>
+          have hsc' : specCycle (sentSession s conf).fcntDown rx1 rx2 mp1 mp2 = .accepted N d snr := hsc
+          simp only [hsc'] at ht
+          obtain ⟨ctx, _, _, rfl⟩ := ht
+          refine ⟨so, _, _, rfl, ?_⟩
+          simp only [hfc]
+          rcases acceptOut_resp (sentSession s conf) d N ctx with ⟨e, hx⟩ | ⟨e, hx⟩
+          · left; rw [e]; exact ⟨hx, rfl, rfl⟩
+          · right; rw [e]; exact ⟨hx, rfl, rfl⟩
+        | ended =>
+          have hsc' : specCycle (sentSession s conf).fcntDown rx1 rx2 mp1 mp2 = .ended := hsc
+          simp only [hsc'] at ht
+          obtain ⟨_, rfl⟩ := ht
+          refine ⟨so, _, _, rfl, ?_, rfl⟩
+          simp only [macRx2Complete, hst1, rx2Complete_resp_eq, timeoutResp, hfc, hcf]; rfl
+        | nothing =>
+          have hsc' : specCycle (sentSession s conf).fcntDown rx1 rx2 mp1 mp2 = .nothing := hsc
+          simp only [hsc'] at ht
+          obtain ⟨_, rfl⟩ := ht
+          refine ⟨so, _, _, rfl, ?_, rfl⟩
+          simp only [macRx2Complete, hst1, rx2Complete_resp_eq, timeoutResp, hfc, hcf]; rfl
+
+/-- the tracker after a trace is the tracker run over its events -/
+theorem ghostAfter_ghRun (gh : Gh) (t : List (Ev × Out)) :
+    ghostAfter (fun gh ev _ => ghStep gh ev) gh t = ghRun gh (t.map (·.1)) := by
+  induction t generalizing gh with
+  | nil => rfl
+  | cons x rest ih => obtain ⟨ev, out⟩ := x; simp only [ghostAfter, List.map_cons, ghRun, List.foldl_cons]; exact ih _
+
+/-- the trace predicate of C05 -/
+def AcceptTrace : Gh → List (Ev × Out) → Prop := TraceD (fun gh ev _ => ghStep gh ev) OutOk
+
+/-- **C05 over every history.**  From any state `m` the tracker `gh` describes (the initial state:
+`none`), for every random stream and every history whose frames have 16-bit wire counters: at EVERY
+event a data frame heard in RX1/RX2/RXC is acted upon — `DownlinkReceived N` reported, payload
+delivered, `N` remembered (the tracker, hence the freshness window of every later frame, moves to
+`N`) — iff it fits the window's limit and its MIC verifies under the unique fresh counter `N`
+(`last < N ≤ last + 16384`, first frame of the session: `N` = the wire value), `last` being the
+counter of the last accepted frame of the session; and the final state is again the one the tracker
+describes (its stored counter IS the last accepted one). -/
+theorem history_accept_iff {σ} (g : Rng σ) (m : MacState) (rs : σ) (gh : Gh) (hr : GhRel m gh) (evs : List Ev)
+    (hv : ∀ ev ∈ evs, evOk ev = true) (ms' : MacState × σ) (outs : List Out)
+    (h : run g (m, rs) evs = .ok (ms', outs)) :
+    AcceptTrace gh (evs.zip outs) ∧ GhRel ms'.1 (ghRun gh evs) := by
+  have hc := run_chain g (m, rs) ms' evs outs h
+  have hlen := run_outs_length g (m, rs) ms' evs outs h
+  have hv' : ∀ x ∈ evs.zip outs, evOk x.1 = true := fun x hx => hv x.1 (List.of_mem_zip hx).1
+  obtain ⟨ht, hrel⟩ := chain_traceD g (fun gh ev _ => ghStep gh ev) OutOk GhRel (fun ev => evOk ev = true)
+    (fun m s ev m' s' out gh hr hv hs => ⟨step_outOk g m m' s s' ev out gh hr hv hs, step_ghRel g m m' s s' ev out gh hr hv hs⟩)
+    (m, rs) ms' (evs.zip outs) gh hr hv' hc
+  refine ⟨ht, ?_⟩
+  rw [ghostAfter_ghRun] at hrel
+  have : (evs.zip outs).map (·.1) = evs := by
+    rw [List.map_fst_zip]; omega
+  rw [this] at hrel
+  exact hrel
+
+/-- from the initial state of any region -/
+theorem history_accept_iff_init {σ} (g : Rng σ) (r : RegionState) (maxPower : Nat) (gain : Int) (rs : σ) (evs : List Ev)
+    (hv : ∀ ev ∈ evs, evOk ev = true) (ms' : MacState × σ) (outs : List Out)
+    (h : run g (MacState.init r maxPower gain, rs) evs = .ok (ms', outs)) :
+    AcceptTrace none (evs.zip outs) ∧ GhRel ms'.1 (ghRun none evs) :=
+  history_accept_iff g _ rs none (ghRel_init r maxPower gain) evs hv ms' outs h
+
+
+/-- an event that (re)starts activation: the session, if any, ends here -/
+def isJoin : Ev → Bool
+  | .joinAbp _ _ _ | .joinOtaa _ _ _ _ _ => true
+  | _ => false
+
+/-- the downlink counter an output reports as accepted -/
+def reported : Out → Option Nat
+  | .up _ (some (.downlinkReceived N)) _ => some N
+  | .rxc _ (some o) => (match o.resp with | .downlinkReceived N => some N | _ => none)
+  | _ => none
+
+/-- a reported acceptance is one the reference makes: under the tracker's `last` the frame's MIC
+verifies for the fresh counter `N`, and the tracker moves to `N` -/
+theorem outOk_reported {gh : Gh} {ev : Ev} {out : Out} {N : Nat} (hv : evOk ev = true) (h : OutOk gh ev out)
+    (hr : reported out = some N) :
+    ∃ last d mp, gh = some last ∧ accepts last d mp = some N ∧ ghStep gh ev = some (some N) := by
+  cases ev with
+  | joinAbp da nwk app => cases gh <;> (simp only [OutOk] at h; subst h; cases hr)
+  | setAdr on => cases gh <;> (simp only [OutOk] at h; subst h; cases hr)
+  | setDr dr => cases gh <;> (simp only [OutOk] at h; subst h; cases hr)
+  | joinOtaa fault rx1 rx2 mp1 mp2 =>
+    cases gh <;> (simp only [OutOk] at h; obtain ⟨jo, resp, rfl⟩ := h; cases hr)
+  | rxc v snr mp =>
+    simp only [evOk] at hv
+    cases gh with
+    | none => simp only [OutOk] at h; obtain ⟨rf, rfl⟩ := h; cases hr
+    | some last =>
+      simp only [OutOk] at h
+      obtain ⟨rf, o, rfl, h⟩ := h
+      simp only [reported] at hr
+      cases hs : specRxc last v mp with
+      | none => simp only [hs] at h; subst h; cases hr
+      | some p =>
+        obtain ⟨N', d⟩ := p
+        simp only [hs] at h
+        have hN : N' = N := by
+          rcases h with rfl | rfl
+          · simpa using hr
+          · cases hr
+        subst hN
+        refine ⟨last, d, mp, rfl, ?_, by simp [ghStep, hs]⟩
+        unfold specRxc at hs
+        cases v with
+        | garbage => cases hs
+        | joinAccept j => cases hs
+        | data d' =>
+          simp only [Option.map_eq_some_iff, Prod.mk.injEq] at hs
+          obtain ⟨_, ha, rfl, rfl⟩ := hs
+          exact ha
+  | uplink data fport conf fault rx1 rx2 mp1 mp2 =>
+    simp only [evOk, Bool.and_eq_true] at hv
+    cases gh with
+    | none => simp only [OutOk] at h; subst h; cases hr
+    | some last =>
+      cases fault with
+      | some k =>
+        simp only [OutOk] at h
+        obtain ⟨so, resp, rfl, h⟩ := h
+        rcases h with rfl | rfl <;> cases hr
+      | none =>
+        simp only [OutOk] at h
+        obtain ⟨so, resp, dl, rfl, h⟩ := h
+        cases hsc : specCycle last rx1 rx2 mp1 mp2 with
+        | accepted N' d snr =>
+          simp only [hsc] at h
+          have hN : N' = N := by
+            rcases h with ⟨_, rfl, _⟩ | ⟨_, rfl, _⟩
+            · simpa [reported] using hr
+            · cases hr
+          subst hN
+          obtain ⟨mp, ha, _⟩ := upRes_accepted (fault := none) hv.1 hv.2 hsc
+          exact ⟨last, d, mp, rfl, ha, by simp [ghStep, upRes, hsc, ghWin]⟩
+        | ended =>
+          simp only [hsc] at h
+          obtain ⟨rfl, _⟩ := h
+          unfold timeoutResp at hr
+          (repeat' split at hr) <;> cases hr
+        | nothing =>
+          simp only [hsc] at h
+          obtain ⟨rfl, _⟩ := h
+          unfold timeoutResp at hr
+          (repeat' split at hr) <;> cases hr
+
+theorem accepts_gt {L : Nat} {d : RxData} {mp N : Nat} (h : accepts (some L) d mp = some N) : L < N :=
+  (accepts_some.mp h).2.1.gt
+
+/-- within a session the tracker never moves backwards -/
+theorem ghStep_mono (L : Nat) (ev : Ev) (hv : evOk ev = true) (hj : isJoin ev = false) :
+    ∃ L', ghStep (some (some L)) ev = some (some L') ∧ L ≤ L' := by
+  cases ev with
+  | joinAbp da nwk app => cases hj
+  | joinOtaa fault rx1 rx2 mp1 mp2 => cases hj
+  | setAdr on => exact ⟨L, rfl, Nat.le_refl _⟩
+  | setDr dr => exact ⟨L, rfl, Nat.le_refl _⟩
+  | rxc v snr mp =>
+    simp only [ghStep, Option.map_some]
+    cases hs : specRxc (some L) v mp with
+    | none => exact ⟨L, rfl, Nat.le_refl _⟩
+    | some p =>
+      obtain ⟨N, d⟩ := p
+      refine ⟨N, rfl, ?_⟩
+      unfold specRxc at hs
+      cases v with
+      | garbage => cases hs
+      | joinAccept j => cases hs
+      | data d' =>
+        simp only [Option.map_eq_some_iff, Prod.mk.injEq] at hs
+        obtain ⟨_, ha, rfl, rfl⟩ := hs
+        exact Nat.le_of_lt (accepts_gt ha)
+  | uplink data fport conf fault rx1 rx2 mp1 mp2 =>
+    simp only [evOk, Bool.and_eq_true] at hv
+    simp only [ghStep, Option.map_some]
+    cases hu : upRes (some L) fault rx1 rx2 mp1 mp2 with
+    | nothing => exact ⟨L, rfl, Nat.le_refl _⟩
+    | ended => exact ⟨L, rfl, Nat.le_refl _⟩
+    | accepted N d snr =>
+      obtain ⟨mp, ha, _⟩ := upRes_accepted hv.1 hv.2 hu
+      exact ⟨N, rfl, Nat.le_of_lt (accepts_gt ha)⟩
+
+theorem ghRun_mono (L : Nat) (evs : List Ev) (hv : ∀ e ∈ evs, evOk e = true) (hj : ∀ e ∈ evs, isJoin e = false) :
+    ∃ L', ghRun (some (some L)) evs = some (some L') ∧ L ≤ L' := by
+  induction evs generalizing L with
+  | nil => exact ⟨L, rfl, Nat.le_refl _⟩
+  | cons e rest ih =>
+    obtain ⟨L1, h1, hle1⟩ := ghStep_mono L e (hv e List.mem_cons_self) (hj e List.mem_cons_self)
+    obtain ⟨L2, h2, hle2⟩ := ih L1 (fun e he => hv e (List.mem_cons_of_mem _ he)) (fun e he => hj e (List.mem_cons_of_mem _ he))
+    refine ⟨L2, ?_, Nat.le_trans hle1 hle2⟩
+    simp only [ghRun, List.foldl_cons] at h2 ⊢
+    rw [h1]; exact h2
+
+theorem ghostAfter_append {G} (next : G → Ev → Out → G) (gh : G) (a b : List (Ev × Out)) :
+    ghostAfter next gh (a ++ b) = ghostAfter next (ghostAfter next gh a) b := by
+  induction a generalizing gh with
+  | nil => rfl
+  | cons x rest ih => obtain ⟨e, o⟩ := x; simp only [List.cons_append, ghostAfter]; exact ih _
+
+/-- **the accepted downlink counters of one session are strictly increasing** along every history:
+take any two events `i < j` of a history that report an accepted downlink (`DownlinkReceived Nᵢ`,
+`DownlinkReceived Nⱼ`, in a Class A window or between uplinks) with no (re-)join strictly between
+them: `Nᵢ < Nⱼ`.  Hence no frame is accepted twice in a session: a replayed frame would verify under
+the same counter. -/
+theorem history_fcnt_down_strict {σ} (g : Rng σ) (m : MacState) (rs : σ) (gh : Gh) (hr : GhRel m gh) (evs : List Ev)
+    (hv : ∀ ev ∈ evs, evOk ev = true) (ms' : MacState × σ) (outs : List Out)
+    (h : run g (m, rs) evs = .ok (ms', outs)) (i j : Nat) (hij : i < j) (ei ej : Ev) (oi oj : Out) (Ni Nj : Nat)
+    (hi : (evs.zip outs)[i]? = some (ei, oi)) (hj : (evs.zip outs)[j]? = some (ej, oj))
+    (hri : reported oi = some Ni) (hrj : reported oj = some Nj)
+    (hq : ∀ k, i < k → k < j → ∀ e o, (evs.zip outs)[k]? = some (e, o) → isJoin e = false) : Ni < Nj := by
+  have ht := (history_accept_iff g m rs gh hr evs hv ms' outs h).1
+  have hvz : ∀ x ∈ evs.zip outs, evOk x.1 = true := fun x hx => hv x.1 (List.of_mem_zip hx).1
+  generalize evs.zip outs = t at *
+  unfold AcceptTrace at ht
+  have hPi := traceD_at _ _ gh t i ei oi ht hi
+  have hPj := traceD_at _ _ gh t j ej oj ht hj
+  have hvi : evOk ei = true := hvz (ei, oi) (List.mem_of_getElem? hi)
+  have hvj : evOk ej = true := hvz (ej, oj) (List.mem_of_getElem? hj)
+  obtain ⟨lasti, di, mpi, hgi, _, hsi⟩ := outOk_reported hvi hPi hri
+  obtain ⟨lastj, dj, mpj, hgj, haj, _⟩ := outOk_reported hvj hPj hrj
+  -- the tracker at j is the tracker after i run over the events in between
+  have hlt : i < t.length := by
+    rcases Nat.lt_or_ge i t.length with hlt | hge
+    · exact hlt
+    · rw [List.getElem?_eq_none hge] at hi; cases hi
+  have hdrop : t.drop i = (ei, oi) :: t.drop (i + 1) := by
+    rw [List.getElem?_eq_getElem hlt] at hi
+    rw [List.drop_eq_getElem_cons hlt]
+    simp only [Option.some.injEq] at hi
+    rw [hi]
+  have htake : t.take j = t.take i ++ (ei, oi) :: (t.drop (i + 1)).take (j - (i + 1)) := by
+    have : j = i + (j - i) := by omega
+    rw [this, List.take_add, hdrop]
+    have : i + (j - i) - (i + 1) = j - i - 1 := by omega
+    rw [this]
+    have : j - i = (j - i - 1) + 1 := by omega
+    rw [this, List.take_succ_cons]
+    simp
+  rw [htake, ghostAfter_append] at hgj
+  simp only [ghostAfter] at hgj
+  rw [hsi, ghostAfter_ghRun] at hgj
+  have hmid : ∀ x ∈ (t.drop (i + 1)).take (j - (i + 1)), evOk x.1 = true ∧ isJoin x.1 = false := by
+    intro x hx
+    obtain ⟨k, hxk⟩ := List.mem_iff_getElem?.mp hx
+    rw [List.getElem?_take] at hxk
+    split at hxk
+    · rename_i hklt
+      rw [List.getElem?_drop] at hxk
+      exact ⟨hvz x (List.mem_of_getElem? hxk), hq (i + 1 + k) (by omega) (by omega) x.1 x.2 hxk⟩
+    · cases hxk
+  obtain ⟨L, hL, hle⟩ := ghRun_mono Ni (((t.drop (i + 1)).take (j - (i + 1))).map (·.1))
+    (fun e he => by obtain ⟨x, hx, rfl⟩ := List.mem_map.mp he; exact (hmid x hx).1)
+    (fun e he => by obtain ⟨x, hx, rfl⟩ := List.mem_map.mp he; exact (hmid x hx).2)
+  rw [hL] at hgj
+  cases hgj
+  have := accepts_gt haj
+  omega
+
+
+/-- … in particular no counter — hence no frame — is accepted twice in a session -/
+theorem history_no_replay {σ} (g : Rng σ) (m : MacState) (rs : σ) (gh : Gh) (hr : GhRel m gh) (evs : List Ev)
+    (hv : ∀ ev ∈ evs, evOk ev = true) (ms' : MacState × σ) (outs : List Out)
+    (h : run g (m, rs) evs = .ok (ms', outs)) (i j : Nat) (hij : i < j) (ei ej : Ev) (oi oj : Out) (Ni Nj : Nat)
+    (hi : (evs.zip outs)[i]? = some (ei, oi)) (hj : (evs.zip outs)[j]? = some (ej, oj))
+    (hri : reported oi = some Ni) (hrj : reported oj = some Nj)
+    (hq : ∀ k, i < k → k < j → ∀ e o, (evs.zip outs)[k]? = some (e, o) → isJoin e = false) : Ni ≠ Nj :=
+  Nat.ne_of_lt (history_fcnt_down_strict g m rs gh hr evs hv ms' outs h i j hij ei ej oi oj Ni Nj hi hj hri hrj hq)
+
+/-! non-vacuity of the history theorems: a session in which a frame is accepted in RX1, replayed
+(rejected), followed by a Class C frame, an oversized frame, and a frame in RX2 -/
+def lcg : Rng Nat := fun x => ((x * 1103515245 + 12345) / 65536, x * 1103515245 + 12345)
+
+def frame (w : Nat) (N : Option Nat) (len : Nat) : RxView :=
+  .data { len := len, confirmed := false, fcnt16 := w, micFcnt := N, fopts := [], fport := some 1, payload := [w] }
+
+def demoHistory : List Ev :=
+  [ .joinAbp 7 1 2,
+    .uplink [1] 1 false none (some (frame 5 (some 5) 14, 0)) none 51 51,
+    .uplink [2] 1 false none (some (frame 5 (some 5) 14, 0)) none 51 51,
+    .rxc (frame 6 (some 6) 14) 0 51,
+    .uplink [3] 1 true none (some (frame 7 (some 7) 200, 0)) (some (frame 8 (some 8) 14, 0)) 51 51,
+    .uplink [4] 1 false none (some (frame 9 none 14, 0)) (some (frame 16390 (some 16390) 14, 0)) 51 51,
+    .uplink [5] 1 false none (some (frame 16391 (some 81927) 14, 0)) none 51 51 ]
+
+example : ∀ ev ∈ demoHistory, evOk ev = true := by decide
+example : GhRel (MacState.init (RegionState.init .EU868) 14 0) none := ghRel_init _ _ _
+example : ghRun none demoHistory = some (some 16390) := by decide
+example : (run lcg (MacState.init (RegionState.init .EU868) 14 0, 1) demoHistory).toOption.map (fun r => r.2.map reported)
+    = some [none, some 5, none, some 6, none, some 16390, none] := by decide +kernel
+
 /-! non-vacuity: concrete frames around an epoch boundary -/
 example : next_fcnt_down (some 0xFFFE) 0x0001 = some 0x10001 := by decide
 example : next_fcnt_down (some 0x1FFFF) 0xFFFF = none := by decide
@@ -201,3 +526,8 @@ end C05
 #print axioms C05.rejected_keeps_counter
 #print axioms C05.accepted_advances
 #print axioms C05.no_frame_accepted_twice
+#print axioms C05.step_outOk
+#print axioms C05.history_accept_iff
+#print axioms C05.history_accept_iff_init
+#print axioms C05.history_fcnt_down_strict
+#print axioms C05.history_no_replay
